@@ -6,6 +6,10 @@ import Proofs.ZoneFileCname
 import Proofs.ZoneFileInterp
 import Proofs.ZoneFileHeader
 import Props.C01
+import Proofs.ZoneFileRoundTrip
+import Proofs.ZoneFileOwnerText
+import Proofs.ZoneFileRdataA
+import Proofs.ZoneFileGenerate
 /-!
 # C09 — zones survive write-then-read as text; equivalent zone-file spellings agree
 
@@ -221,5 +225,158 @@ theorem out_of_zone_ignored (r : PState) (t : Token) (s : TState) (co zo n : Nam
   unfold rrParse
   rw [rrOwner_out_of_zone r t s co zo n hco hzo hget hty hn hout]
   cases eatLine (s.input.length + 2) s <;> simp [Except.map, bind, Except.bind, pure, Except.pure]
+
+/-- the record lines of a file in the writer's canonical shape are read back one record each, whatever RDATA codec
+is plugged in behind the `RdataReads` interface (C05): `owner SP ttl SP class SP type <rdata> NL`. -/
+theorem read_line (r : PState) (ow ttlT clsT tyT rdText rest : List Nat) (co zo n m : Name) (ttl ty : Nat)
+    (rd : Rdata) (comment : Option (List Nat))
+    (hco : r.currentOrigin = some co) (hzo : r.zoneOrigin = some zo)
+    (htok : r.tok = after 0 false (ow ++ (32 :: (ttlT ++ (32 :: (clsT ++ (32 :: (tyT ++ (rdText ++ rest)))))))))
+    (hl : LineOK ow ttlT clsT tyT co zo n ttl ty)
+    (hm : ownerInZone r.relativize n zo = .ok m)
+    (hrd : RdataReads ty rdText rd comment (some co) r.relativize (some zo) r.gfix) :
+    lineStep r = .ok (.entry ⟨m, ttl, ty, ⟨rd, comment⟩⟩, afterRecord r n ttl ty rd rest) :=
+  lineStep_record r ow ttlT clsT tyT rdText rest co zo n m ttl ty rd comment hco hzo htok hl hm hrd
+
+/-- what the writer prints in front of the RDATA always is what the reader needs (`LineOK` minus the name algebra):
+the text of any well-formed owner name is one identifier that is no directive; the decimal TTL reads back as the
+TTL; `IN` reads back as class 1; every mnemonic of the working tree's type table reads back as its type. -/
+theorem written_fields_are_tokens (name : Name) (ttl : Nat) (hwf : WfName name) (ho : OctetsOk name)
+    (ht : ttl ≤ Consts.maxTTL) :
+    (identOK (toText name) = true ∧ toText name ≠ [] ∧ (toText name).head? ≠ some 36) ∧
+    (identOK (natToDec ttl) = true ∧ natToDec ttl ≠ [] ∧ ttlOf (natToDec ttl) = some ttl) ∧
+    (identOK (classToText 1) = true ∧ classToText 1 ≠ [] ∧ classFromText (classToText 1) = some 1) ∧
+    (∀ p ∈ ConstsC09.typeText, TypeTextOK p.1) :=
+  ⟨toText_token name hwf ho, ⟨(natToDec_token ttl).1, (natToDec_token ttl).2, ttlOf_natToDec ttl ht⟩,
+    classText_token, typeText_table_ok⟩
+
+/-- "writing any zone to master-file text and reading it back yields an equal zone, for relativized and absolute
+zones" — proved for the plain one-record-per-line style with `sorted` on or off (`plainStyleS b`), for every
+well-formed zone (`ZoneWF`: non-empty nodes and rdatasets, names / types / rdatas pairwise distinct, singleton types
+hold one rdata, CNAME exclusivity, SOA only at the origin) whose records are individually readable (`RecLine.Good`: the
+name algebra of the owner, and the RDATA codec behind the C05 interface `RdataReads`):
+`from_text(to_styled_text(z)) = z` exactly when unsorted, and the zone with its names in canonical order when sorted. -/
+theorem read_write (b : Bool) (z : ZoneMap) (zo : Name) (rel gfix : Bool) (absOf : Name → Name) (rtextOf : RR → List Nat)
+    (hwf : ZoneWF (if rel then some [] else some zo) (writeOrder b z))
+    (htext : ∀ p ∈ writeOrder b z, ∀ rds ∈ p.2, ∀ rr ∈ rds.rrs, rdataToText (plainStyleS b).toRdStyle rr.rd = .ok (rtextOf rr))
+    (hgood : ∀ l ∈ zoneRecLines absOf rtextOf (writeOrder b z), l.Good zo rel gfix) :
+    ∃ text, zoneToText (plainStyleS b) (some zo) z rel = .ok text ∧
+      zoneFromText text (some zo) rel false gfix = .ok (writeOrder b z, some zo) :=
+  read_write_plain b z zo rel gfix absOf rtextOf hwf htext hgood
+
+/-- "sorting": the order in which a sorted style writes (and the reader then stores) the names is a permutation of
+the zone's own order — the zones are equal as name → node maps. -/
+theorem sorted_is_permutation (z : ZoneMap) : (writeOrder true z).Perm z := by
+  simpa [writeOrder] using sortNames_perm z
+
+/-- the denotation of a zone's own record list is the zone (the reader reconstructs a well-formed zone exactly) -/
+theorem interp_of_records (eff : Option Name) (z : ZoneMap) (hwf : ZoneWF eff z) :
+    addAll eff [] (entriesOfZone z) = .ok z := addAll_rebuild eff z hwf
+
+/-- non-vacuity of `read_write`: the relativized zone `www 300 IN A 10.0.0.1 / 10.0.0.2`, `ns 60 IN A 192.0.2.1`
+under origin `ex.` meets every hypothesis, with the A-record instance of the RDATA interface (`rdataReads_A`). -/
+example :
+    let zo : Name := [[101, 120], []]
+    let z : ZoneMap := [([[119, 119, 119]], [⟨1, 300, [⟨.a [10, 0, 0, 1], none⟩, ⟨.a [10, 0, 0, 2], none⟩]⟩]),
+                        ([[110, 115]], [⟨1, 60, [⟨.a [192, 0, 2, 1], none⟩]⟩])]
+    let rtextOf : RR → List Nat := fun rr => match rr.rd with | .a addr => inetNtoa addr | _ => []
+    let absOf : Name → Name := fun n => n ++ zo
+    ZoneWF (some []) (writeOrder false z) ∧
+    (∀ p ∈ writeOrder false z, ∀ rds ∈ p.2, ∀ rr ∈ rds.rrs,
+        rdataToText (plainStyleS false).toRdStyle rr.rd = .ok (rtextOf rr)) ∧
+    (∀ l ∈ zoneRecLines absOf rtextOf (writeOrder false z), l.Good zo true false) := by
+  intro zo z rtextOf absOf
+  refine ⟨?_, ?_, ?_⟩
+  · refine ⟨?_, ?_, ?_⟩
+    · intro p hp
+      simp only [writeOrder, z, Bool.false_eq_true, if_false, List.mem_cons, List.mem_nil_iff, or_false] at hp
+      rcases hp with rfl | rfl <;>
+        exact ⟨by simp, by intro r hr; simp at hr; subst hr; exact ⟨by simp, by decide, by decide⟩, by simp,
+          by simp [NodeOK]; decide⟩
+    · simp only [writeOrder, z, Bool.false_eq_true, if_false]; decide
+    · intro p hp r hr
+      simp only [writeOrder, z, Bool.false_eq_true, if_false, List.mem_cons, List.mem_nil_iff, or_false] at hp
+      rcases hp with rfl | rfl <;> (simp at hr; subst hr; decide)
+  · intro p hp rds hr rr hrr
+    simp only [writeOrder, z, Bool.false_eq_true, if_false, List.mem_cons, List.mem_nil_iff, or_false] at hp
+    rcases hp with rfl | rfl <;> (simp at hr; subst hr; simp at hrr) <;> (try rcases hrr with rfl | rfl) <;>
+      (try subst hrr) <;> rfl
+  · intro l hl
+    simp only [zoneRecLines, writeOrder, z, Bool.false_eq_true, if_false, List.flatMap_cons, List.flatMap_nil, List.map_cons,
+      List.map_nil, List.append_nil, List.cons_append, List.nil_append, List.mem_cons, List.mem_nil_iff, or_false] at hl
+    have lineok : ∀ (name : Name) (ttl : Nat), WfName name → OctetsOk name → ttl ≤ Consts.maxTTL →
+        (identToken (toText name)).asName (some zo) false none = .ok (name ++ zo) → isSubdomain (name ++ zo) zo = true →
+        LineOK (toText name) (natToDec ttl) (classToText 1) (typeToText 1) zo zo (name ++ zo) ttl 1 := by
+      intro name ttl h1 h2 h3 h4 h5
+      obtain ⟨a1, a2, a3⟩ := toText_token name h1 h2
+      obtain ⟨c1, c2, c3⟩ := classText_token
+      obtain ⟨t1, t2, t3⟩ := typeText_table_ok (1, [65]) (by decide)
+      exact ⟨a1, a2, a3, h4, h5, (natToDec_token ttl).1, (natToDec_token ttl).2, ttlOf_natToDec ttl h3, c1, c2, c3, t1, t2, t3⟩
+    rcases hl with rfl | rfl | rfl
+    · refine ⟨lineok [[119, 119, 119]] 300 ⟨by decide, by decide, by decide⟩ (by unfold OctetsOk; decide) (by decide) rfl rfl,
+        rfl, ?_⟩
+      exact rdataReads_A (inetNtoa [10, 0, 0, 1]) [10, 0, 0, 1] _ _ _ _ rfl (by decide) (by decide) rfl rfl
+    · refine ⟨lineok [[119, 119, 119]] 300 ⟨by decide, by decide, by decide⟩ (by unfold OctetsOk; decide) (by decide) rfl rfl,
+        rfl, ?_⟩
+      exact rdataReads_A (inetNtoa [10, 0, 0, 2]) [10, 0, 0, 2] _ _ _ _ rfl (by decide) (by decide) rfl rfl
+    · refine ⟨lineok [[110, 115]] 60 ⟨by decide, by decide, by decide⟩ (by unfold OctetsOk; decide) (by decide) rfl rfl,
+        rfl, ?_⟩
+      exact rdataReads_A (inetNtoa [192, 0, 2, 1]) [192, 0, 2, 1] _ _ _ _ rfl (by decide) (by decide) rfl rfl
+
+/-- "$GENERATE versus its expansion", one index: the `for` loop of `_generate_line` (owner through
+`dns.name.from_text`, RDATA through a fresh tokenizer over the substituted text) hands `txn.add` the same record as the
+reader does for the explicit line `owner SP ttl SP class SP type SP rdata NL` of the expansion. -/
+theorem generate_eq_expansion (r : PState) (nameT ttlT clsT tyT rdT rest : List Nat) (zo n m : Name) (ttl ty : Nat)
+    (rd : Rdata) (comment : Option (List Nat)) (s' : TState)
+    (hco : r.currentOrigin = some zo) (hzo : r.zoneOrigin = some zo)
+    (hname : fromText nameT (some zo) = .ok n) (habs : isAbs n = true)
+    (hl : LineOK nameT ttlT clsT tyT zo zo n ttl ty)
+    (hm : ownerInZone r.relativize n zo = .ok m)
+    (hline : RdataReads ty (32 :: (rdT ++ [10])) rd comment (some zo) r.relativize (some zo) r.gfix)
+    (hfresh : rdataFromText ty (TState.init rdT) (some zo) r.relativize (some zo) r.gfix = .ok (rd, comment, s')) :
+    (genItem ttl ty (nameT, rdT) r).map (·.1) =
+    (lineStep { r with tok := after 0 false (nameT ++ (32 :: (ttlT ++ (32 :: (clsT ++ (32 :: (tyT ++ ((32 :: (rdT ++ [10])) ++ rest)))))))) }).map
+      (fun x => evEntry x.1) :=
+  generate_item_eq_line r nameT ttlT clsT tyT rdT rest zo n m ttl ty rd comment s' hco hzo hname habs hl hm hline hfresh
+
+/-- "$GENERATE versus its expansion", the whole loop: when every index yields a record, what the loop does to the zone
+is the fold of `txn.add` over those records in index order — the same denotation `read_eq_interp` / `read_write` give
+to the file of their explicit lines. -/
+theorem generate_loop_is_fold (ttl ty : Nat) (items : List (List Nat × List Nat)) (r : PState)
+    (e : List Nat × List Nat → Entry) (nOf : List Nat × List Nat → Name) (k : Bool → PState → Trace)
+    (h : ∀ item ∈ items, ∀ ln, genItem ttl ty item { r with lastName := ln } =
+      .ok (some (e item), { r with lastName := some (nOf item) }))
+    (z : ZoneMap) :
+    ∃ ln, interpTrace (genTrace ttl ty items r k) z =
+      (addAll r.effOrigin z (items.map e)).bind fun z' => interpTrace (k false { r with lastName := ln }) z' :=
+  genTrace_records ttl ty items r e nOf k h z
+
+/-- the indices a `$GENERATE start-stop/step` line runs over are `start, start+step, …` up to `stop` inclusive -/
+theorem generate_indices (start stop step : Nat) (lhs rhs : List Nat) (lm rm : Modify) :
+    generateExpansion start stop step lhs rhs lm rm =
+      (((List.range (stop + 1 - start)).filter (fun k => k % step = 0)).map fun k =>
+        (substIndex lhs lm (start + k), substIndex rhs rm (start + k))) := rfl
+
+/-! ### D08 — `want_generic` (recorded finding; DESIGN §6)
+
+The property text lists "generic RFC 3597 syntax" among the lossless styles, and the working tree violates it
+(`KNOWN_FINDINGS.json`).  The model carries the decision point as a parameter (`Style.genFix`, `PState.gfix`): value 0 /
+false is the code as shipped, the other values are the proposed repair; at run time the harness replays the
+witnesses below on the implementation and asks the model for the variant the code implements.
+
+Full statement (not provable for the code as shipped, and for the repaired variant it needs the wire codec theorems of
+C02 for the generic form of every type):
+`∀ z st, Lossless st → st.wantGeneric → zoneFromText (zoneToText st z) = z`.
+What is established here: `read_write` for `wantGeneric = false`; the witnesses below; correspondence and the
+write/read oracle on zones whose RDATA holds no name at or below the origin (where the shipped code does round-trip). -/
+
+/-- witness, as shipped: a relativized zone `@ 300 IN NS ns` cannot be written with `want_generic` -/
+example : zoneToText { wantGeneric := true } (some [[101, 120], []])
+    [([], [⟨2, 300, [⟨.name1 [[110, 115]], none⟩]⟩])] true = .error .needAbsolute := by rfl
+
+/-- the same zone under the repaired variant is written in RFC 3597 form with the origin appended in the wire name -/
+example : zoneToText { wantGeneric := true, genFix := 2 } (some [[101, 120], []])
+    [([], [⟨2, 300, [⟨.name1 [[110, 115]], none⟩]⟩])] true =
+      .ok (s2l "@ 300 CLASS1 TYPE2 \\# 7 026e7302657800\n") := by rfl
 
 end C09
